@@ -64,7 +64,7 @@ func (a Float64) ConvertConstScalar(t ScalarType) ConstScalar {
   case Float64Type:
     return a
   default:
-    return NewConstScalar(t, a.GetFloat64())
+    return convertConstScalar(a, t)
   }
 }
 func (a Float64) ConvertScalar(t ScalarType) Scalar {
